@@ -23,6 +23,7 @@ import (
 
 	"github.com/mgtv-tech/redis-GunYu/cmd"
 	"github.com/mgtv-tech/redis-GunYu/config"
+	"github.com/mgtv-tech/redis-GunYu/pkg/redis"
 	"github.com/mgtv-tech/redis-GunYu/pkg/redis/checkpoint"
 	"github.com/mgtv-tech/redis-GunYu/pkg/redis/client"
 	"github.com/mgtv-tech/redis-GunYu/pkg/redis/client/common"
@@ -284,7 +285,7 @@ func runGcLive(tr *hx.Trace, srv *fakeredis.Server, seed uint64, n, shard, shard
 		after := readResume(srv, ids)
 		id += shards
 		tr.Emit(map[string]interface{}{"ev": "Maint", "id": id, "op": "gclive", "k": 0, "total": 0, "crashed": false, "operr": false, "reported": report, "gcRequests": gcReqs,
-			"before": before, "after": after, "state": fmt.Sprint(st.entries), "datadbs": fmt.Sprint(st.dataDbs)})
+			"before": before, "after": after, "later": after, "wrote": -1, "state": fmt.Sprint(st.entries), "datadbs": fmt.Sprint(st.dataDbs)})
 		runs++
 		if len(samples) < 1 {
 			samples = append(samples, map[string]interface{}{"op": "gclive", "source_reports": report, "checkpoints(db,off,ageMs,runid)": fmt.Sprint(st.entries)})
@@ -382,8 +383,24 @@ func main() {
 					cli2.Close()
 				}
 				after := readResume(srv, ids)
+				// the replay goes on under the current id and stores a later position where the start found it; then it is
+				// started once more: whatever the interrupted operation left behind must not outvote that position
+				later, wrote := after, int64(-1)
+				if sc.op != "gc" && after.Rid != "?" && after.Off >= 0 && after.Db >= 0 {
+					cli3 := connect(srv)
+					local, _ := opArgs(sc.op)
+					if err := redis.SelectDB(cli3, uint32(after.Db)); err != nil {
+						hx.Fatal("select: %v", err)
+					}
+					wrote = after.Off + 57
+					if err := checkpoint.SetCheckpoint(cli3, &checkpoint.CheckpointInfo{Key: local, RunId: ids[0], Offset: wrote, Version: config.Version}); err != nil {
+						hx.Fatal("progress: %v", err)
+					}
+					cli3.Close()
+					later = readResume(srv, ids)
+				}
 				tr.Emit(map[string]interface{}{"ev": "Maint", "id": id, "op": sc.op, "k": k, "total": total, "crashed": crashed, "operr": opErr != nil, "reported": "",
-					"before": before, "after": after, "state": fmt.Sprint(sc.entries), "datadbs": fmt.Sprint(sc.dataDbs)})
+					"before": before, "after": after, "later": later, "wrote": wrote, "state": fmt.Sprint(sc.entries), "datadbs": fmt.Sprint(sc.dataDbs)})
 				nRuns++
 			}
 		}
